@@ -583,6 +583,12 @@ structure DialResult where
   /-- the part written after the request -/
   excess : Bytes
   reqSalt : Bytes
+  /-- an interruptor (`context.AfterFunc` setting the conn's write deadline to the distant past) is still
+  registered on the DIAL context when `DialStream` returns: only the excess-payload branch registers one
+  (`netio.ConnWriteContext`), and `ConnWriteContextFunc` detaches it before returning iff the regenerated
+  fact `connWriteContextAlwaysStops` holds. While it is registered, the end of the dial context makes
+  every later `Write` of the client conn fail. -/
+  ctxArmed : Bool := false
   deriving Repr
 
 /-- `StreamClient.DialStream` -/
@@ -596,7 +602,8 @@ def dial (C : Crypto) (cfg : ClientCfg) (ch : DialChoice) (target : Addr) (paylo
   let req := cfg.reqPrefix ++ ch.salt ++ (identityHeaders C cfg ch.salt).flatten
     ++ C.enc k 0 (fixedHeader ch.ts vh.length) ++ C.enc k 1 vh
   let (segs, w) := Writer.emit C ⟨k, 2⟩ (writeChunks excess)
-  { segs := req :: segs, writer := w, inReq := inReq, excess := excess, reqSalt := ch.salt }
+  { segs := req :: segs, writer := w, inReq := inReq, excess := excess, reqSalt := ch.salt,
+    ctxArmed := excess.length != 0 && !connWriteContextAlwaysStops }
 
 /-- what an SIP023 relay does to the request: check and strip the first identity header. Returns
 `none` when the header does not name the next hop's key. -/
